@@ -705,6 +705,57 @@ pub fn gen_script(rng: &mut Rng, start: &Pos, flavor: Flavor, max_steps: usize) 
 
 /// Equality probes (C13): chains built from a DIFFERENT start position with the same UCI list (`alt`), and
 /// reversible cycles from a start whose counters are saturated, each followed by `eq`.
+/// C17 / C09: a fixed line of moves from a start position, then the printed forms (all styles) and a walk
+pub fn gen_line(rng: &mut Rng, start: &Pos, line: &[Move]) -> Script {
+    let mut steps: Vec<String> = Vec::new();
+    for m in line {
+        steps.push(format!("pm {}", mv_fmt(m)));
+    }
+    for s in ["s", "u", "U"] {
+        let n = *rng.pick(&["o", "b", "c1", "c7"]);
+        steps.push(format!("sty {} {} s", n, s));
+    }
+    steps.push("uci".to_string());
+    steps.push("rebuild".to_string());
+    steps.push("w sneppn".to_string());
+    steps.push("calc".to_string());
+    steps.push("st".to_string());
+    let l = format!("chain {} ; {}", start.raw_text(), steps.join(" ; "));
+    Script {
+        line: l,
+        final_len: line.len(),
+        obs: BTreeMap::new(),
+        steps,
+    }
+}
+
+/// C14 / C07: a quiet finishing move whose result is also a draw by the clock or by material; the calculation and every
+/// filter are queried on the chain, then the move is taken back and queried again
+pub fn gen_finisher(start: &Pos, m: &Move) -> Script {
+    let mut steps: Vec<String> = Vec::new();
+    steps.push("calc".to_string());
+    steps.push(format!("pm {}", mv_fmt(m)));
+    steps.push("calc".to_string());
+    steps.push("st".to_string());
+    steps.push("clone".to_string());
+    steps.push("auto f".to_string());
+    steps.push("st".to_string());
+    steps.push("swap".to_string());
+    steps.push("auto s".to_string());
+    steps.push("st".to_string());
+    steps.push("co".to_string());
+    steps.push("pop".to_string());
+    steps.push("calc".to_string());
+    steps.push("st".to_string());
+    let line = format!("chain {} ; {}", start.raw_text(), steps.join(" ; "));
+    Script {
+        line,
+        final_len: 0,
+        obs: BTreeMap::new(),
+        steps,
+    }
+}
+
 /// C14: scripts built around `act_deep_repeat`
 pub fn gen_deep_repeat(rng: &mut Rng, start: &Pos) -> Script {
     crate::set_current(&format!("chain {} ; <script being generated>", start.raw_text()));
